@@ -498,7 +498,8 @@ type c13StreamResult struct {
 	afterOpen bool        // a value arrived after closure was observed (cannot happen on a Go channel; kept as a guard)
 }
 
-func c13RunStream(text []byte, capacity int, mode int, rng *rand.Rand, deadline time.Duration) c13StreamResult {
+// long is the stall of consumer mode 4 (one long stall before the 2nd receive).
+func c13RunStream(text []byte, capacity int, mode int, rng *rand.Rand, deadline time.Duration, long time.Duration) c13StreamResult {
 	ch := make(chan Fasta, capacity)
 	prod := make(chan interface{}, 1)
 	go func() {
@@ -522,6 +523,10 @@ func c13RunStream(text []byte, capacity int, mode int, rng *rand.Rand, deadline 
 		case 3: // bursts: long stall every few records
 			if i%17 == 16 {
 				time.Sleep(time.Duration(200+rng.Intn(800)) * time.Microsecond)
+			}
+		case 4: // takes the first record, then stalls for a long time before the second receive
+			if i == 1 {
+				time.Sleep(long)
 			}
 		}
 	}
@@ -554,7 +559,67 @@ recv:
 	return res
 }
 
-func c13Streaming(t *testing.T) {
+// c13LongStall is one case of the long-stalled consumer: capacity 0 or 1, 3..5
+// small records, one stall of the given length before the 2nd receive.
+type c13LongStall struct {
+	xs       []Fasta
+	text     []byte
+	capacity int
+	stall    time.Duration
+	res      c13StreamResult
+}
+
+func c13LongStallPlan(thorough bool) (caps []int, stalls []time.Duration) {
+	if thorough {
+		return []int{0, 1}, []time.Duration{700 * time.Millisecond, 1200 * time.Millisecond, 2 * time.Second, 3 * time.Second}
+	}
+	return []int{0, 1}, []time.Duration{700 * time.Millisecond, 1200 * time.Millisecond}
+}
+
+// c13StartLongStalls starts the long-stall cases, each on its own goroutines, so
+// that they run while the other clauses are evaluated; the returned function
+// waits for them and hands back the outcomes.
+func c13StartLongStalls() func() []*c13LongStall {
+	thorough := verifThorough()
+	caps, stalls := c13LongStallPlan(thorough)
+	seed := verifSeed()
+	var cases []*c13LongStall
+	var wg sync.WaitGroup
+	k := 0
+	for si, st := range stalls {
+		for ci, capacity := range caps {
+			if !thorough && si != ci {
+				continue // quick: capacity 0 with the first stall, capacity 1 with the second
+			}
+			k++
+			rng := rand.New(rand.NewSource(seed*6007 + int64(k)))
+			xs := c13List(rng, 3+k%3, func(int) int { return 1 + rng.Intn(60) })
+			for i := range xs {
+				xs[i].Name = "rec" + strconv.Itoa(i+1) + " " + xs[i].Name
+			}
+			c := &c13LongStall{xs: xs, text: c13Layout(rng, xs, c13Opts{width: 60}), capacity: capacity, stall: st}
+			cases = append(cases, c)
+			wg.Add(1)
+			go func() {
+				defer wg.Done()
+				c.res = c13RunStream(c.text, c.capacity, 4, rng, 20*time.Second, c.stall)
+			}()
+		}
+	}
+	return func() []*c13LongStall {
+		wg.Wait()
+		return cases
+	}
+}
+
+func c13LongStallText(thorough bool) string {
+	if thorough {
+		return "8 long-stall cases: capacities {0,1} x one stall of {0.7,1.2,2,3} s before the 2nd receive, 3..5 records of 1..60 letters"
+	}
+	return "2 long-stall cases: capacity 0 with one stall of 0.7 s and capacity 1 with one stall of 1.2 s before the 2nd receive, 3..5 records of 1..60 letters"
+}
+
+func c13Streaming(t *testing.T, longStalls func() []*c13LongStall) {
 	thorough := verifThorough()
 	reps := 1
 	if thorough {
@@ -563,36 +628,41 @@ func c13Streaming(t *testing.T) {
 	v := newVerifRun("C13", "io/fasta.ParseConcurrent/post/stream",
 		"every channel capacity 0..1000, "+strconv.Itoa(reps)+" seeded case(s) each: list of 1..200 records (sequences 0..2000 letters, laid out by the independent writer with random width/blank/comment/CRLF), "+
 			"plus 16 cases at capacities {0,1,2,1000} with a 70000- or 300000-letter sequence wrapped at 60 or on one line; consumer eager, randomly stalled (0..300 us before a quarter of the receives), "+
-			"late starter (3 ms) or bursty; producer goroutine wrapped in recover (double close / send on closed channel shows as a panic), closure awaited with a 20 s deadline; not run under the race detector unless the driver passes -race; "+
+			"late starter (3 ms) or bursty; plus "+c13LongStallText(thorough)+" (run concurrently with the other cases; same demands: records complete and in order, then closed exactly once); producer goroutine wrapped in recover (double close / send on closed channel shows as a panic), closure awaited with a 20 s deadline; not run under the race detector unless the driver passes -race; "+
 			"non-trivial = more records than capacity+1 (the producer must block) or a stalled consumer")
 	v.Sampled()
 	seed := verifSeed()
 	var jobs []func()
 	var fails c13Fails
+	// judge compares one outcome with the records the text was laid out from.
+	// diffClass is the class of a difference in the records received.
+	judge := func(res c13StreamResult, xs []Fasta, text []byte, in string, diffClass func() string) {
+		switch {
+		case res.panicked != nil:
+			fails.add(len(text), "producer-panic", in, fmt.Sprintf("producer goroutine panicked: %v", res.panicked))
+			return
+		case !res.closed:
+			fails.add(len(text), "channel-not-closed", in, fmt.Sprintf("channel not closed within 20 s after %d record(s)", len(res.got)))
+			return
+		case !res.producer:
+			fails.add(len(text), "producer-not-finished", in, "channel closed but ParseConcurrent did not return within the deadline")
+			return
+		case res.afterOpen:
+			fails.add(len(text), "value-after-close", in, "a value was received after the channel was seen closed")
+			return
+		}
+		if d := c13Diff(res.got, xs); d != "" {
+			fails.add(len(text), diffClass(), in, d)
+		}
+	}
 	run := func(xs []Fasta, o c13Opts, capacity, mode int, s int64) {
 		jobs = append(jobs, func() {
 			rng := rand.New(rand.NewSource(s))
 			text := c13Layout(rng, xs, o)
 			in := fmt.Sprintf("capacity %d, consumer mode %d, %s, layout %s", capacity, mode, c13Describe(xs), o.String())
 			v.Case(fmt.Sprintf("cap=%d mode=%d %s", capacity, mode, c13Key(xs, o.String())), len(xs) > capacity+1 || mode != 0)
-			res := c13RunStream(text, capacity, mode, rng, 20*time.Second)
-			switch {
-			case res.panicked != nil:
-				fails.add(len(text), "producer-panic", in, fmt.Sprintf("producer goroutine panicked: %v", res.panicked))
-				return
-			case !res.closed:
-				fails.add(len(text), "channel-not-closed", in, fmt.Sprintf("channel not closed within 20 s after %d record(s)", len(res.got)))
-				return
-			case !res.producer:
-				fails.add(len(text), "producer-not-finished", in, "channel closed but ParseConcurrent did not return within the deadline")
-				return
-			case res.afterOpen:
-				fails.add(len(text), "value-after-close", in, "a value was received after the channel was seen closed")
-				return
-			}
-			if d := c13Diff(res.got, xs); d != "" {
-				fails.add(len(text), c13Class(text), in, d)
-			}
+			res := c13RunStream(text, capacity, mode, rng, 20*time.Second, 0)
+			judge(res, xs, text, in, func() string { return c13Class(text) })
 		})
 	}
 	widths := []int{1, 7, 60, 70, 80, 0, -100}
@@ -624,13 +694,20 @@ func c13Streaming(t *testing.T) {
 		}
 	}
 	c13Parallel(jobs)
+	// the long-stalled consumers, started before the first clause
+	for _, c := range longStalls() {
+		in := fmt.Sprintf("capacity %d, consumer takes 1 record and then stalls for %v before the 2nd receive, %s, layout width=60", c.capacity, c.stall, c13Describe(c.xs))
+		v.Case(fmt.Sprintf("cap=%d long-stall=%v %s", c.capacity, c.stall, c13Key(c.xs, "")), true)
+		judge(c.res, c.xs, c.text, in, func() string { return "records-differ-after-long-stall" })
+	}
 	fails.flush(v)
 	v.Done()
 }
 
 func TestVerifC13(t *testing.T) {
 	dir := t.TempDir()
+	longStalls := c13StartLongStalls() // run while the other clauses are evaluated
 	c13Roundtrip(t, dir)
 	c13Invariance(t, dir)
-	c13Streaming(t)
+	c13Streaming(t, longStalls)
 }
